@@ -22,6 +22,9 @@ random generator reaches only rarely:
                     outer one is cancelled while the host still does shielded cleanup inside
                     the deep one, never-cancelled scopes in between must relay the pending
                     uncancel count                                                  -> C05
+ deadline_histories one active scope whose deadline is reassigned 2-3 times (to inf, to the
+                    past, nearer, farther) at instants before / after the previously armed
+                    timer would have fired                                          -> C06
  start_sweep        child = k checkpoints then started / raise / return / block, then more
                     work / raise / return, cleanup variants; caller's or group's scope
                     cancelled at every cycle, by self / sibling / agent             -> C07
@@ -264,6 +267,36 @@ def nested_handover():  # noqa: ANN201
                                         ]
                                         yield _p(cfg, body + [["cp", 2], ["sleep", 0.5]], agents,
                                                  "fam:nested_handover")  # fmt: skip
+
+
+def deadline_histories():  # noqa: ANN201
+    values = (None, -1, 0.25, 1.25, 3)
+    plans = [(0.5, 1.5), (0.5, 2.5), (1.5, 2.5), (0.5, 1.5, 2.5)]
+    for cfg in CFGS:
+        for d0 in (1, 2, None):
+            for times in plans:
+                for vals in I.product(values, repeat=len(times)):
+                    for helper in (None, "fail_after"):
+                        if helper and len(times) == 3:
+                            continue
+
+                        body: list = [["probe"]]
+                        for _ in range(5):
+                            body += [["sleep", 1], ["probe"]]
+
+                        sid = "f1" if helper else "s1"
+                        if helper:
+                            if d0 is None:
+                                continue
+
+                            blk = [["tscope", sid, helper, d0, False, body], ["probe"]]
+                        else:
+                            blk = [["scope", sid, False, d0, body], ["probe"]]
+
+                        agents = [{"t": t, "place": "after", "do": ["deadline", sid, v]}
+                                  for t, v in zip(times, vals)]  # fmt: skip
+                        yield _p(cfg, [["catch_then", blk, [["cp", 1]]], ["sleep", 0.5]], agents,
+                                 "fam:deadline_histories")  # fmt: skip
 
 
 def start_sweep():  # noqa: ANN201
